@@ -7,7 +7,7 @@ from vlib.props.C04 import fps_bits
 ID = "C13"
 # the property speaks about accepted inputs (values / invariants); which error a rejected input gets is not part of it
 ERROR_IDENTITY_IRRELEVANT = True
-RULE = ("SPS with sizes and crop offsets from an extreme-value table (0, 1, around 2^27, 2^28, 2^31, 2^32-2) x chroma formats "
+RULE = ("SPS with the sizes real encoders produce (1080p/i, 720p, SD, CIF, QCIF, VGA, 4K) x no / zero / usual crop x frame/field x chroma format; sizes and crop offsets from an extreme-value table (0, 1, around 2^27, 2^28, 2^31, 2^32-2) x chroma formats "
         "0..3 (+ profiles without chroma info) x separate planes x frame/field; all 256 values of profile_idc, of the "
         "constraint-flag byte and of level_idc; timing info with num_units/time_scale in {0,1,1001,2^32-1,random}. "
         "observable: pixel_dimensions, fps (as f64 bits), level/profile and their idc round trip, RFC 6381 string, the *_in_mbs helpers. "
@@ -38,6 +38,16 @@ def gen(tier, rng):
                 s["vui"] = g.gen_vui(rng, s["max_num_ref_frames"])
             s["vui"]["timing"] = (rng.choice([0, 1, 1001, 0xffffffff, rng.getrandbits(32)]), rng.choice([0, 1, 30000, 60000, 0xffffffff, rng.getrandbits(32)]), True)
         cases.append("sps raw:" + hx(g.enc_sps(s, rng).bytes()))
+    # the sizes real encoders produce (1080p/i, 720p, SD, CIF, ...) x no crop / all-zero crop / the usual bottom crop x frame / field
+    # coding x chroma format: a size-specific special case has nowhere to hide
+    for w, h, f in g.COMMON_SIZES:
+        for crop in (None, (0, 0, 0, 0), (0, 0, 0, 4), (0, 0, 0, 2)):
+            for fmo in ((True, False) if f is None else (f,)):
+                for prof, cf in ((66, 1), (100, 1), (122, 2), (244, 3)):
+                    s = g.gen_sps(rng, small=True, force={"w": w, "h": h, "frame_mbs_only": fmo, "profile_idc": prof, "chroma_format_idc": cf})
+                    s["has_chroma"] = prof in g.CHROMA_PROFILES
+                    s["crop"] = crop
+                    cases.append("sps raw:" + hx(g.enc_sps(s, rng).bytes()))
     # all header bytes
     base = g.gen_sps(rng, small=True, force={"profile_idc": 66})
     base["vui"] = None
